@@ -268,6 +268,8 @@ def r3_note_by_note(ctx, sep):
     for a in walk_local(f.node):
         if isinstance(a, ast.Assign) and a.value in exports and isinstance(a.targets[0], ast.Name):
             whole.add(a.targets[0].id)
+    def is_whole(x):
+        return (isinstance(x, ast.Name) and x.id in whole) or any(x is e_ for e_ in exports)
     # loop variables that iterate over the chord notes
     note_vars = set()
     for n in walk_local(f.node):
@@ -278,10 +280,18 @@ def r3_note_by_note(ctx, sep):
             its += [(g.target, g.iter) for g in n.generators]
         for tg, it in its:
             if isinstance(tg, ast.Name) and isinstance(it, ast.Call) and isinstance(it.func, ast.Attribute) and it.func.attr == 'split' \
-                    and isinstance(it.func.value, ast.Name) and it.func.value.id in whole and it.args:
-                ok, v = ctx.ce.try_eval(it.args[0], f.module)
-                if ok and v == chord_sep:
+                    and is_whole(it.func.value):
+                ok, v = ctx.ce.try_eval(it.args[0], f.module) if it.args else (True, None)
+                if ok and v == chord_sep and len(it.args) == 1 and not it.keywords:
                     note_vars.add(tg.id)
+                else:
+                    # split() / split(None) / another separator / a maxsplit: the pieces are not the chord notes, and
+                    # joining them again does not give the cell back
+                    note_vars.add(tg.id)
+                    ctx.violation('R3', f'{f.module.relpath}:{it.lineno}', f.qualname, 'cell-split-not-on-chord-separator',
+                                  f'the exported cell is cut with `{src(it)[:50]}`, not at the chord separator {chord_sep!r} only: '
+                                  f'split() also cuts at tabs / runs of blanks and drops leading and trailing ones, so a cell that is '
+                                  f'not a chord (a comment, an instrument name, a lyric with two blanks) is changed in the basic encodings')
     n_trunc = 0
     for n in walk_local(f.node):
         trunc_base = None
@@ -289,12 +299,12 @@ def r3_note_by_note(ctx, sep):
                 and n.value.func.attr in ('split', 'rsplit', 'partition', 'rpartition'):
             trunc_base = n.value.func.value
             what = f'`{src(n)[:60]}`'
-        elif isinstance(n, ast.Subscript) and isinstance(n.slice, ast.Slice) and isinstance(n.value, ast.Name) and n.value.id in whole:
+        elif isinstance(n, ast.Subscript) and isinstance(n.slice, ast.Slice) and is_whole(n.value):
             trunc_base = n.value
             what = f'slice `{src(n)[:60]}`'
         if trunc_base is None:
             continue
-        if isinstance(trunc_base, ast.Name) and trunc_base.id in whole:
+        if is_whole(trunc_base):
             n_trunc += 1
             ctx.violation('R3', f'{f.module.relpath}:{n.lineno}', f.qualname, 'whole-cell-truncation',
                           f'{what} truncates the WHOLE exported cell at the first decoration separator: for a chord every note after '
